@@ -156,6 +156,8 @@ type RunOpts struct {
 	DumpDir    string
 	Opt        map[string]string // per-nondet option overrides
 	AbstractMul bool
+	Native      bool
+	Filter2     *regexp.Regexp
 }
 
 func runHarnesses(ld *Loaded, opts RunOpts) []HarnessResult {
@@ -167,7 +169,7 @@ func runHarnesses(ld *Loaded, opts RunOpts) []HarnessResult {
 		var names []string
 		for n, m := range p.Members {
 			if f, ok := m.(*ssa.Function); ok && strings.HasPrefix(n, "VX_") {
-				if opts.Filter == nil || opts.Filter.MatchString(n) {
+				if (opts.Filter == nil || opts.Filter.MatchString(n)) && (opts.Filter2 == nil || opts.Filter2.MatchString(n)) {
 					names = append(names, f.Name())
 				}
 			}
@@ -224,6 +226,9 @@ func runOneMode(ld *Loaded, fn *ssa.Function, opts RunOpts, pool *Pool, abstract
 	ex := NewExec(ld.Prog, opts.Bounds)
 	ex.AbstractMul = abstractMul
 	ex.pool = pool
+	if opts.Native {
+		ex.Native = NewNativeEnv()
+	}
 	ex.optOverride = opts.Opt
 	t0 := time.Now()
 	func() {
